@@ -104,7 +104,7 @@ fn weights_for(focus: &str) -> [u32; OP_KINDS] {
     }
 }
 
-const HALF_CLOCKS: &[u32] = &[0, 1, 2, 3, 5, 8, 10, 49, 50, 98, 99, 100, 101, 126, 127, 128, 129, 130, 200, 255, 256, 1000, 2047, 2048, 3600, 3650];
+const HALF_CLOCKS: &[u32] = &[0, 1, 2, 3, 5, 8, 10, 49, 50, 98, 99, 100, 101, 126, 127, 128, 129, 130, 200, 255, 256, 1000, 2047, 2048, 3600, 3650, 4094, 4095];
 const FULL_MOVES: &[u32] = &[1, 2, 3, 10, 40, 77, 150, 200, 1000, 2400];
 
 fn gen_strgen(rng: &mut Rng) -> StrGen {
@@ -706,9 +706,15 @@ impl<'a> BoardSim<'a> {
         self.res.steps += 1;
         // the properties quantify half-move clocks 0..4095 (the undo field is 12 bits wide):
         // never drive the live board beyond that range
-        if self.rf.half >= 4000 && !matches!(op, Op::JumpTo(_) | Op::TakeBack(_)) {
+        // (make+unmake at clock 4095 itself is in range: operations that do not advance the live
+        // clock stay enabled up to 4095, operations that play moves stop early enough)
+        let advances = matches!(op, Op::Play(_) | Op::PlayUci(_) | Op::MakeUci(_) | Op::MakeAll { .. } | Op::Transpose(..));
+        if (advances && self.rf.half >= 4080) || self.rf.half > 4095 {
             self.res.bump("noop.clock_guard");
             return Ok(());
+        }
+        if self.rf.half == 4095 {
+            self.res.bump("probe.half_eq_4095");
         }
         match op {
             Op::Play(i) => {
